@@ -83,10 +83,11 @@ type progRun struct {
 	stats  map[string]int
 	ghosts *ghostTracker
 	evSeen int
+	listed map[ethcmn.Address]bool
 }
 
 func newProgRun(c *ProgCase) *progRun {
-	r := &progRun{ad: newAdapter(), ref: newRef(), height: 2, blockN: 1, known: map[ethcmn.Address]int{}, stats: map[string]int{}, ghosts: newGhostTracker()}
+	r := &progRun{ad: newAdapter(), ref: newRef(), height: 2, blockN: 1, known: map[ethcmn.Address]int{}, stats: map[string]int{}, ghosts: newGhostTracker(), listed: map[ethcmn.Address]bool{}}
 	r.ad.seed(c.Accts)
 	r.ref.seed(c.Accts)
 	for _, a := range c.Accts {
@@ -375,8 +376,11 @@ func (r *progRun) execMsg(i int, s PStep) *violation {
 // learn notes contracts the reference now knows (children created at run time included).
 func (r *progRun) learn() {
 	for _, a := range r.ref.rec.addrs {
-		if _, ok := r.known[a]; !ok && r.ref.sdb.GetCodeSize(a) > 0 {
-			r.known[a] = 4
+		if !r.listed[a] && r.ref.sdb.GetCodeSize(a) > 0 {
+			r.listed[a] = true
+			if _, ok := r.known[a]; !ok {
+				r.known[a] = 4
+			}
 			r.order = append(r.order, a)
 		}
 	}
@@ -497,11 +501,17 @@ func (m *msgGen) next() PStep {
 			data = nil
 		}
 		s.Data = "0x" + ethcmn.Bytes2Hex(data)
-		s.Gas = []uint64{1000000, 1000000, 300000, 100000, 60000, 40000, 30000, 25000, 22000, 21000}[c.Int(0, 9, "gas")]
+		s.Gas = []uint64{1000000, 1000000, 1000000, 1000000, 300000, 300000, 300000, 100000, 100000, 60000, 40000, 30000, 25000, 22000, 21000}[c.Int(0, 14, "gas")]
 		s.Note = fmt.Sprintf("call sel=%d", sel)
 	default:
 		// plain transfer / call to a non-contract
 		all := append(append([]ethcmn.Address{}, m.g.p.eoas...), m.g.p.others...)
+		// addresses of contracts that are gone (self-destructed): they can be credited like any other address
+		for _, a := range m.r.order {
+			if m.r.ref.sdb.GetCodeSize(a) == 0 {
+				all = append(all, a, a)
+			}
+		}
 		to := all[c.Int(0, len(all)-1, "to")]
 		s.To = to.Hex()
 		if c.Int(0, 2, "withdata") == 0 {
